@@ -3,6 +3,7 @@ CONSTANTS
   MaxCombs = @MAXCOMBS@
   MutW = @MUTW@
   Sem = @SEM@
+  SemNames = @SEMNAMES@
   Focus = @FOCUS@
   LayoutSel = @LAYOUTS@
   LowerNames <- LowerNamesMC
